@@ -194,6 +194,9 @@ structure DState where
   cancelled : List Nat := []
   /-- cancelled ids already reported as surviving (one report per id) -/
   reported : List Nat := []
+  /-- operations executed since the last observed dump (the dump describes the state before an
+  operation only when this is 0, and the state before the previous operation when it is 1) -/
+  since : Nat := 0
 
 def firstFail (cs : List (Bool × String)) : Option String :=
   (cs.find? (fun c => !c.1)).map (·.2)
@@ -206,14 +209,14 @@ def checkDump (c : Cfg) (d : DState) (o : Obs) : String × DState :=
                o.temp.all (fun e => !(decide (e.addr ∈ un) && e.val))
   let ruleOk := o.san.all fun x => x.2 == Spec.isSanctioned un o.perm o.temp x.1
   let idxOk := Spec.indexMirrors o.temp o.idx
-  let balOk := match d.obs with
+  let balOk := match (if d.since ≤ 1 then d.obs else none) with
     | none => true
     | some prev => prev.san.all fun x =>
         !x.2 || Spec.notDecreased ((prev.bal.lookup x.1).getD []) ((o.bal.lookup x.1).getD [])
   let fates := o.temp.map fun e => (e.id, Spec.fate o.props d.cancelled o.next e.id)
   let badFate := fates.find? fun f => f.2 != .live && f.2 != .cancelled
   let newCancel := fates.find? fun f => f.2 == .cancelled && !d.reported.contains f.1
-  let d' := { d with obs := some o }
+  let d' := { d with obs := some o, since := 0 }
   match firstFail [(unsOk, "unsanctionable_sanctioned"), (ruleOk, "latest_entry_rule"),
                    (idxOk, "index_mirrors_temp"), (balOk, "sanctioned_balance_decreased")] with
   | some cl => ("fail:" ++ cl, d')
@@ -238,7 +241,7 @@ def debited : Op → Option Addr
 /-- The property on the answer to one operation: a debit of an account observed as
 sanctioned must be refused; nobody else may be refused for being sanctioned. -/
 def checkOp (d : DState) (op : Op) (impl : String) : String :=
-  match d.obs, debited op with
+  match (if d.since = 0 then d.obs else none), debited op with
   | some o, some a =>
     match o.san.lookup a with
     | some true => if impl.startsWith "ok" then "fail:sanctioned_debit_allowed" else "ok"
@@ -281,7 +284,7 @@ def stepLine (d : DState) (line : String) (impl : Option String) : DState × Str
       let cancelled := match impl, cancelId op with
         | some i, some id => if i.startsWith "ok" then id :: d.cancelled else d.cancelled
         | _, _ => d.cancelled
-      ({ d with s := s', cancelled := cancelled }, out, verdict)
+      ({ d with s := s', cancelled := cancelled, since := d.since + 1 }, out, verdict)
 
 def driver : Driver where
   σ := DState
